@@ -95,7 +95,7 @@ package keeper
 //@   ensures [C12.cancel.succeeds] old(has(Order, orderId)) && has(PaymentAddress, (old(Order[orderId].PaymentDid) != "" ? old(Order[orderId].PaymentDid) : old(Order[orderId].Owner)))
 //@       && old(Order[orderId].Amount.Amount) > 0 && oldbal(moduleAddr("order"), old(Order[orderId].Amount.Denom)) >= old(Order[orderId].Amount.Amount)
 //@       && !blockedAddr(addr(PaymentAddress[(old(Order[orderId].PaymentDid) != "" ? old(Order[orderId].PaymentDid) : old(Order[orderId].Owner))].Address)) ==> err == nil
-//@   ensures [C05.cancel.refund] err == nil && addr(PaymentAddress[(old(Order[orderId].PaymentDid) != "" ? old(Order[orderId].PaymentDid) : old(Order[orderId].Owner))].Address) != moduleAddr("order") ==>
+//@   ensures [C05.cancel.refund] [C06.cancel.refund] err == nil && addr(PaymentAddress[(old(Order[orderId].PaymentDid) != "" ? old(Order[orderId].PaymentDid) : old(Order[orderId].Owner))].Address) != moduleAddr("order") ==>
 //@       bal(addr(PaymentAddress[(old(Order[orderId].PaymentDid) != "" ? old(Order[orderId].PaymentDid) : old(Order[orderId].Owner))].Address), old(Order[orderId].Amount.Denom))
 //@         == oldbal(addr(PaymentAddress[(old(Order[orderId].PaymentDid) != "" ? old(Order[orderId].PaymentDid) : old(Order[orderId].Owner))].Address), old(Order[orderId].Amount.Denom)) + old(Order[orderId].Amount.Amount)
 //@       && bal(moduleAddr("order"), old(Order[orderId].Amount.Denom)) == oldbal(moduleAddr("order"), old(Order[orderId].Amount.Denom)) - old(Order[orderId].Amount.Amount)
